@@ -2004,4 +2004,9 @@ def stream_replay(ctx, rp, prop):
         compare(ctx, w, out, "replay")
     orc = check_oracles(w)
     print("oracle results:", orc.get(prop), "disagreements:", len(ctx.disagreements))
-    return bool(orc.get(prop)) or bool(ctx.disagreements)
+    hits = orc.get(prop) or []
+    if rp.get("what") and rp.get("replay", {}).get("finding_id"):
+        # a stored witness of a numbered finding fails again only if THAT failure recurs (other known findings may
+        # show on the same case)
+        hits = [h for h in hits if h[0] == rp["what"]]
+    return bool(hits) or bool(ctx.disagreements)
